@@ -633,6 +633,9 @@ func genModelFontOpt(rng *rand.Rand, nested bool) *modelFont {
 			w.Private["BlueShift"] = "7.5"
 		case 4:
 			w.Private["StdVW"] = "[1 2]"
+		case 5:
+			w.Private["StdHW"] = []string{"[-30]", "[-0.5]", "[0]"}[rng.IntN(3)]
+			w.Private["StdVW"] = []string{"[-12.5]", "[-1]", "[1e-3]"}[rng.IntN(3)]
 		}
 		if rng.IntN(4) == 0 {
 			w.DateLine = []string{"not a date", "2021-13-45 99:99:99 +0000 UTC", "Thu Mar 4 05:06:07 2021 ", "2021-03-04 05:06:07 -0930 XYZ"}[rng.IntN(4)]
